@@ -560,3 +560,70 @@ func TestC16_P_SplitReadWriteStores(t *testing.T) {
 		ev.Sample(map[string]any{"kind": kind, "blocks_written": target.Len(), "blocks_upstream": upstream.Len()})
 	})
 }
+
+// Every builder run twice through ONE link system value whose storage is swapped in between (the second CAR, the second
+// shard of an upload): the link returned by the second run is only good if its whole DAG was committed to the second store,
+// whatever the builder remembers from the first run. Contents include a sparse file (whole 256 KiB chunks of zeros with the
+// default chunker), repeated chunks, an empty file, directories and symlinks.
+func TestC16_R_SecondBuildThroughRepointedLinkSystem(t *testing.T) {
+	sparse := make([]byte, 3*262144+77)
+	copy(sparse[262144+5:], "not all zeros")
+	es := []entrySpec{}
+	for i := 0; i < 300; i++ {
+		es = append(es, entryFor(fmt.Sprintf("entry-%03d", i), 2))
+	}
+	ext := map[cid.Cid]bool{}
+	for _, e := range es {
+		ext[e.Cid] = true
+	}
+	builds := []struct {
+		name string
+		run  func(ls *ipld.LinkSystem) (datamodel.Link, error)
+	}{
+		{"sparse file, default chunker", func(ls *ipld.LinkSystem) (datamodel.Link, error) {
+			l, _, err := builder.BuildUnixFSFile(bytes.NewReader(sparse), "", ls)
+			return l, err
+		}},
+		{"file of repeated chunks", func(ls *ipld.LinkSystem) (datamodel.Link, error) {
+			l, _, err := builder.BuildUnixFSFile(bytes.NewReader(bytes.Repeat([]byte("0123456789abcdef"), 40)), "size-16", ls)
+			return l, err
+		}},
+		{"empty file", func(ls *ipld.LinkSystem) (datamodel.Link, error) {
+			l, _, err := builder.BuildUnixFSFile(bytes.NewReader(nil), "", ls)
+			return l, err
+		}},
+		{"symlink", func(ls *ipld.LinkSystem) (datamodel.Link, error) {
+			l, _, err := builder.BuildUnixFSSymlink("../target", ls)
+			return l, err
+		}},
+		{"plain directory", func(ls *ipld.LinkSystem) (datamodel.Link, error) {
+			l, _, err := builder.BuildUnixFSDirectory(pbEntries(es[:40]), ls)
+			return l, err
+		}},
+		{"sharded directory", func(ls *ipld.LinkSystem) (datamodel.Link, error) {
+			l, _, err := builder.BuildUnixFSShardedDirectory(16, 0x22, pbEntries(es), ls)
+			return l, err
+		}},
+	}
+	first, second := NewStore(), NewStore()
+	ls := first.LinkSystem()
+	for _, b := range builds {
+		if _, err := b.run(ls); err != nil {
+			t.Fatalf("C16 first build (%s): %v", b.name, err)
+		}
+	}
+	ls.StorageWriteOpener, ls.StorageReadOpener = second.openWrite, second.openRead
+	for _, b := range builds {
+		l, err := b.run(ls)
+		if err != nil || l == nil {
+			t.Fatalf("C16 second build (%s): %v", b.name, err)
+		}
+		_, dangling := second.Reachable(cidOf(l))
+		for _, d := range dangling {
+			if !ext[d] {
+				_, inFirst := first.Get(d)
+				t.Fatalf("C16: %s built a second time through the same link system, its storage swapped in between: the returned link %s has block %s of its DAG missing from the store it was written to (the first store holds it: %v)", b.name, l, d, inFirst)
+			}
+		}
+	}
+}
